@@ -54,6 +54,7 @@ type OutSpec struct {
 	Impl  int    // concrete type id allocated (== T when T is concrete)
 	Key   string // result-object field name tag
 	Group string // result-object field group tag
+	Nil   bool   // the constructor always returns nil for this (interface-typed, secondary) output
 }
 
 // DepSpec is one declared dependency.
@@ -129,6 +130,9 @@ func (r Reg) String() string {
 		sb.WriteString(TypeName(o.T))
 		if o.Impl != o.T {
 			sb.WriteString("=" + TypeName(o.Impl))
+		}
+		if o.Nil {
+			sb.WriteString("=nil")
 		}
 		if o.Key != "" {
 			sb.WriteString(":" + o.Key)
